@@ -42,7 +42,7 @@ type txnCtx struct {
 
 // runTxn executes one transaction program on the primary and mirrors it into the model.
 func (w *World) runTxn(prog *TxnProg, exact bool) {
-	if prog.Direct && exact && len(prog.Ops) == 1 && !prog.Abort && (prog.Ops[0].Kind == "delete" || prog.Ops[0].Kind == "deletekey") {
+	if prog.Direct && exact && len(prog.Ops) == 1 && !prog.Abort && (prog.Ops[0].Kind == "delete" || prog.Ops[0].Kind == "deletekey" || prog.Ops[0].Kind == "insert" || prog.Ops[0].Kind == "at") {
 		w.runDirect(&prog.Ops[0])
 		return
 	}
@@ -149,6 +149,52 @@ func (w *World) runDirect(op *Op) {
 		if got := w.primary.DeleteAt(off); got != live {
 			w.fail(violation("delete-result", "%s=%v, a live row at that offset: %v", what, got, live))
 		}
+	case "insert", "at":
+		// Collection.Insert / Collection.QueryAt with a callback that only stores through the Row
+		x := &txnCtx{w: w, c: w.primary, mt: mt, exact: true}
+		plain := *op
+		plain.Writes = nil
+		for _, wr := range op.Writes {
+			if !wr.Delete && !wr.SetKey && !wr.Clear && wr.TTL == 0 && wr.Extend == 0 {
+				wr.Via = 0
+				plain.Writes = append(plain.Writes, wr)
+			}
+		}
+		var err error
+		if op.Kind == "insert" {
+			var at, ret uint32
+			ret, err = w.primary.Insert(func(r column.Row) error {
+				at = r.Index()
+				mt.add(MOp{Kind: mInsert, Off: at})
+				x.mine = append(x.mine, at)
+				x.checkFresh(r, at) // a fresh row must expose nothing (as in the transaction-level insert)
+				x.writes(r, at, &plain)
+				return nil
+			})
+			what = "Collection.Insert"
+			if err == nil && ret != at {
+				w.fail(violation("insert-result", "Collection.Insert returned offset %d but the row was positioned at %d", ret, at))
+			}
+			off = at
+		} else {
+			var ok bool
+			if off, ok = x.resolve(op.Target); !ok {
+				delete(w.txns, tid)
+				return
+			}
+			what = fmt.Sprintf("Collection.QueryAt(%d)", off)
+			err = w.primary.QueryAt(off, func(r column.Row) error {
+				if r.Index() != off {
+					w.fail(violation("cursor", "%s positioned the row at %d", what, r.Index()))
+				}
+				x.writes(r, off, &plain)
+				return nil
+			})
+		}
+		if err != nil {
+			w.fail(violation("query-result", "%s returned %v", what, err))
+		}
+		live = true
 	case "deletekey":
 		off, live = w.model.KeyOf(op.Key)
 		if live {
@@ -164,7 +210,7 @@ func (w *World) runDirect(op *Op) {
 	if w.viol != nil {
 		return
 	}
-	w.stats.probe("delete-through-collection-level-call")
+	w.stats.probe("collection-level-call/" + op.Kind)
 	if !live {
 		if n := len(w.tap.Commits) - before; n != 0 {
 			w.fail(violation("stream/commit-for-nothing", "%s found nothing to delete, yet %d commit(s) reached the change stream", what, n))
